@@ -192,9 +192,9 @@ static Result run_tree(const json &c) {
   }
   if (worst > tol / 8) r.cls("measure-error>tol/8");
 
-  // ---- black box cross-check (does not use the thresholds for locating change points): 4096-cell grid, bisection of each
+  // ---- black box cross-check (does not use the thresholds for locating change points): 1024-cell grid, bisection of each
   // cell whose ends differ.  Cells that (by the white-box view) contain >= 2 thresholds may hide events: allowance.
-  const int G = 4096;
+  const int G = 1024;
   std::vector<long double> bb(n, 0.0L);
   long double allowance = 0;
   size_t ti = 0;
